@@ -35,8 +35,10 @@ fn stable_positions<T: Ord>(values: &[T]) -> Vec<usize> {
 }
 
 fn plan_case(case: &mut Case) {
-    let n = case.rng.range(1, 6);
-    let alphabet = case.rng.range(1, 4); // small alphabets give many ties
+    // mostly tiny vectors; every fifth case a long one (sorting algorithms switch strategy with
+    // the length, and stability only shows with ties)
+    let n = if case.k % 5 == 4 { case.rng.range(20, 300) } else { case.rng.range(1, 6) };
+    let alphabet = if n > 6 { case.rng.range(2, 12) } else { case.rng.range(1, 4) }; // small alphabets give many ties
     let values: Vec<u8> = (0..n).map(|_| case.rng.below(alphabet) as u8).collect();
     let ties = values.iter().collect::<BTreeSet<_>>().len() < n;
     case.distinct(hash_of(&values), ties && n >= 3);
